@@ -314,7 +314,18 @@ def _with_derived(fid, m):
     return lambda f: f.extra.get("derived_from") == fid or (not f.extra.get("derived_from") and m(f))
 
 
+def m_osm_dump_crash(f: Failure) -> bool:
+    """OSM_QUESTION_FIELDS is built from SELECT_QUESTION_EXTRA_FIELDS instead of OSM_QUESTION_EXTRA_FIELDS
+    (question.py:66-67), so copy() asks an OsmUploadQuestion for a `choices` slot it does not have."""
+    return (
+        f.kind == "p2-dump-crash" and "OsmUploadQuestion" in f.detail and "'choices'" in f.detail
+        and f.detail.startswith("AttributeError") and "survey_element.py:__getitem__" in f.detail
+        and any(str(r.get("type", "")).split(" ")[0] == "osm" for r in f.case["form"].get("survey", []))
+    )
+
+
 MATCHERS = {
+    "F39-osm-question-dump-crash": m_osm_dump_crash,
     "F12-group-bind-dropped": m_group_bind,
     "F37-group-message-itext-dropped": m_group_message_itext,
     "F12-extra-choice-columns-dropped": m_extra_choice_cols,
@@ -567,6 +578,24 @@ def directed_forms():
     yield "qtd-hint-default", {"survey": [{"type": "phone number", "name": "p", "label": "P"}]}
     yield "plain", {"survey": [{"type": "text", "name": "q", "label": "Q", "hint": "h", "relevant": "1 = 1", "bind::foo": "bar"}],
                     "settings": [{"form_title": "T", "form_id": "f", "version": "3", "attribute::x": "1", "public_key": "K", "submission_url": "http://u"}]}
+    yield "osm", {"survey": [{"type": "osm", "name": "o", "label": "O"}]}
+    yield "osm-tags", {"survey": [{"type": "osm t", "name": "o", "label": "O"}, {"type": "select_one l", "name": "s", "label": "S"}],
+                       "choices": ch[1:], "osm": [{"list_name": "t", "name": "a", "label": "A"}]}
+    yield "select-from-file", {"survey": [{"type": "select_one_from_file x.csv", "name": "s", "label": "S"},
+                                          {"type": "select_multiple_from_file y.xml", "name": "s2", "label": "S", "parameters": "value=v label=l"}]}
+    yield "select-from-repeat", {"survey": [{"type": "begin repeat", "name": "r", "label": "R"}, {"type": "text", "name": "t", "label": "T"},
+                                            {"type": "end repeat"}, {"type": "select_one ${t}", "name": "s", "label": "S"}]}
+    yield "or-other", {"survey": [{"type": "select_one l or_other", "name": "s", "label": "S"}], "choices": ch[1:]}
+    yield "external", {"survey": [{"type": "select_one_external l", "name": "s", "label": "S", "choice_filter": "x=1"}], "choices": ch[1:],
+                       "external_choices": [{"list_name": "l", "name": "a", "label": "A", "x": "1"}]}
+    yield "table-list", {"survey": [{"type": "begin group", "name": "g", "label": "G", "appearance": "table-list"},
+                                    {"type": "select_one l", "name": "s", "label": "S"}, {"type": "select_one l", "name": "s2", "label": "S2"},
+                                    {"type": "end group"}], "choices": ch[1:]}
+    yield "audit-range-image", {"survey": [{"type": "audit", "name": "audit", "parameters": "location-priority=balanced location-min-interval=60 location-max-age=300"},
+                                           {"type": "range", "name": "q", "label": "Q", "parameters": "start=1 end=5 step=1"},
+                                           {"type": "image", "name": "i", "label": "I", "default": "a.png"}]}
+    yield "loop", {"survey": [{"type": "begin loop over l", "name": "lp", "label": "L"}, {"type": "text", "name": "q", "label": "Q %(label)s"},
+                              {"type": "end loop"}], "choices": ch[1:]}
     yield "group-appearance-only", {"survey": [{"type": "begin group", "name": "g", "label": "G", "appearance": "field-list"},
                                                {"type": "select_one l", "name": "s", "label": "S", "parameters": "randomize=true seed=3"},
                                                {"type": "end group"}], "choices": ch[1:]}
